@@ -30,6 +30,31 @@ type c17node struct {
 	gen   int
 	stop  context.CancelFunc
 	peers []string // initial config (own order)
+	// cfg is the harness's own record of the peer set this node was given
+	// (initial configuration + AddPeer - RemovePeer). The oracle groups nodes by
+	// it, never by what the node reports: a node that loses or gains members on
+	// its own must not escape the agreement checks.
+	cfg map[string]bool
+}
+
+func (nd *c17node) addPeer(id string) {
+	nd.p.AddPeer(id)
+	nd.cfg[id] = true
+}
+
+func (nd *c17node) removePeer(id string) {
+	nd.p.RemovePeer(id)
+	delete(nd.cfg, id)
+}
+
+// set is the configured peer set, sorted.
+func (nd *c17node) set() []string {
+	out := make([]string, 0, len(nd.cfg))
+	for k := range nd.cfg {
+		out = append(out, k)
+	}
+	sort.Strings(out)
+	return out
 }
 
 type c17world struct {
@@ -188,6 +213,10 @@ func (w *c17world) startNode(nd *c17node) {
 	}
 	p.VerifSetHTTPClients(w.net.Client(nd.id), w.net.Client(nd.id))
 	nd.p = p
+	nd.cfg = map[string]bool{nd.id: true}
+	for _, k := range nd.peers {
+		nd.cfg[k] = true
+	}
 	w.net.Listen(nd.id, nd.node, p.VerifHandler())
 	ctx, cancel := context.WithCancel(context.Background())
 	nd.stop = cancel
@@ -201,7 +230,7 @@ func (w *c17world) addAll() {
 	for _, nd := range w.liveNodes() {
 		for _, o := range w.nodes {
 			if o != nd && o.p != nil {
-				nd.p.AddPeer(o.id)
+				nd.addPeer(o.id)
 			}
 		}
 	}
@@ -256,7 +285,7 @@ func (w *c17world) hashChecks(seed int64, after string) {
 	groups := map[string][]*c17node{}
 	var keys []string
 	for _, nd := range w.liveNodes() {
-		k := c17SetKey(nd.p.VerifPeerNodes())
+		k := c17SetKey(nd.set())
 		if _, ok := groups[k]; !ok {
 			keys = append(keys, k)
 		}
@@ -266,7 +295,7 @@ func (w *c17world) hashChecks(seed int64, after string) {
 	for _, s := range w.subs(seed, 24) {
 		for _, k := range keys {
 			g := groups[k]
-			set := g[0].p.VerifPeerNodes()
+			set := g[0].set()
 			owner := g[0].p.GetOwner(s)
 			for _, nd := range g {
 				if o := nd.p.GetOwner(s); o != owner {
@@ -283,8 +312,8 @@ func (w *c17world) hashChecks(seed int64, after string) {
 					c.Fail("ranked", "ranked/first-not-owner", "node %q: ranked list %q for %q does not start with the owner %q", nd.id, ranked, s, owner)
 					return
 				}
-				if c17SetKey(ranked) != c17SetKey(nd.p.VerifPeerNodes()) || len(ranked) != len(nd.p.VerifPeerNodes()) {
-					c.Fail("ranked", "ranked/not-a-permutation", "node %q: ranked list %q for %q is not a permutation of the peer set %q", nd.id, ranked, s, nd.p.VerifPeerNodes())
+				if c17SetKey(ranked) != c17SetKey(set) || len(ranked) != len(set) {
+					c.Fail("ranked", "ranked/not-a-permutation", "node %q: ranked list %q for %q is not a permutation of the configured peer set %q", nd.id, ranked, s, set)
 					return
 				}
 			}
@@ -308,9 +337,9 @@ func (w *c17world) stable() (bool, string) {
 	if len(live) == 0 {
 		return false, "no-live-node"
 	}
-	set := c17SetKey(live[0].p.VerifPeerNodes())
+	set := c17SetKey(live[0].set())
 	for _, nd := range live {
-		if c17SetKey(nd.p.VerifPeerNodes()) != set {
+		if c17SetKey(nd.set()) != set {
 			return false, "peer-sets-differ"
 		}
 	}
@@ -318,7 +347,7 @@ func (w *c17world) stable() (bool, string) {
 	for _, nd := range live {
 		isLive[nd.id] = true
 	}
-	for _, k := range live[0].p.VerifPeerNodes() {
+	for _, k := range live[0].set() {
 		first, have := false, false
 		for _, nd := range live {
 			v := nd.p.IsPeerHealthy(k) // a node always regards itself as healthy
@@ -334,7 +363,7 @@ func (w *c17world) stable() (bool, string) {
 	// every live node must be part of the set it is asked about
 	for _, nd := range live {
 		found := false
-		for _, k := range nd.p.VerifPeerNodes() {
+		for _, k := range nd.set() {
 			if k == nd.id {
 				found = true
 			}
@@ -519,7 +548,7 @@ func c17Run(c *sim.Ctx) {
 		case "addpeer":
 			a, b := pick(op.Arg(0)), pick(op.Arg(1))
 			if a.live() && a != b {
-				a.p.AddPeer(b.id)
+				a.addPeer(b.id)
 				w.hashChecks(op.Arg(0)^op.Arg(1)<<8^int64(i), "addpeer")
 			}
 		case "addall":
@@ -527,8 +556,8 @@ func c17Run(c *sim.Ctx) {
 			w.hashChecks(op.Arg(0)^int64(i), "addpeer")
 		case "rmone":
 			a, b := pick(op.Arg(0)), pick(op.Arg(1))
-			if a.live() && a != b && len(a.p.VerifPeerNodes()) > 1 {
-				a.p.RemovePeer(b.id)
+			if a.live() && a != b && len(a.cfg) > 1 {
+				a.removePeer(b.id)
 				w.hashChecks(op.Arg(0)^op.Arg(1)<<8^int64(i), "removepeer")
 			}
 		case "rmall":
@@ -551,8 +580,8 @@ func c17Run(c *sim.Ctx) {
 				before = append(before, b)
 			}
 			for _, b := range before {
-				if len(b.nd.p.VerifPeerNodes()) > 1 {
-					b.nd.p.RemovePeer(x.id)
+				if len(b.nd.cfg) > 1 {
+					b.nd.removePeer(x.id)
 				}
 			}
 			for _, b := range before {
@@ -640,7 +669,7 @@ func c17Run(c *sim.Ctx) {
 				// a restarted process reads the same configuration; peers it learnt via AddPeer are re-added by the operator
 				for _, o := range w.nodes {
 					if o != x && o.p != nil {
-						x.p.AddPeer(o.id)
+						x.addPeer(o.id)
 					}
 				}
 			}
